@@ -84,59 +84,52 @@ def parseLib (j : Json) : Option Lib := do
     some (id, cap, dom, tgt, mats))
   some ⟨sizes.toArray, leaves⟩
 
-partial def eval (l : Lib) (S : Sem GR DV Mat) (j : Json) : Except String O := do
-  let bad : Except String O := .error "bad-script"
-  let sub (k : String) : Except String O := match field? j k with
-    | some x => eval l S x
-    | none => .error "bad-script"
+/-- JSON script -> expression tree (`none`: malformed script) -/
+partial def parseExpr (l : Lib) (j : Json) : Option (Expr GR DV) :=
+  let sub (k : String) : Option (Expr GR DV) := (field? j k).bind (parseExpr l)
   match fStr? j "op" with
   | some "leaf" =>
-      match fNat? j "id" with
-      | some id => match l.leaves.find? (fun x => x.1 == id) with
-          | some (_, cap, dom, tgt, _) => pure (Op.leaf id cap dom tgt)
-          | none => bad
-      | none => bad
+      (fNat? j "id").bind fun id => (l.leaves.find? (fun x => x.1 == id)).map fun (_, cap, dom, tgt, _) => Expr.leaf id cap dom tgt
   | some "scaling" =>
       match fNat? j "dom", (field? j "c").bind getGR?, fNat? j "dt" with
-      | some d, some c, some dt => pure (Op.scaling d c dt)
-      | _, _, _ => bad
+      | some d, some c, some dt => some (Expr.scaling d c dt)
+      | _, _, _ => none
   | some "diag" =>
       match fNat? j "dom", (field? j "v").bind (listOf? getGR?), fNat? j "dt" with
-      | some d, some v, some dt => pure (Op.diag d v.toArray 0 dt)
-      | _, _, _ => bad
+      | some d, some v, some dt => some (Expr.diag d v.toArray dt)
+      | _, _, _ => none
   | some "null" =>
       match fNat? j "dom", fNat? j "tgt" with
-      | some d, some t => pure (Op.null d t)
-      | _, _ => bad
+      | some d, some t => some (Expr.null d t)
+      | _, _ => none
   | some "block" =>
       match fNat? j "dom", fNatList? j "subdoms", (field? j "ents").bind getArr? with
-      | some d, some sd, some es => do
-          let ents ← es.mapM (fun e => match e with
-            | Json.null => (pure none : Except String (Option O))
-            | e => do let o ← eval l S e; pure (some o))
-          mkBlock d sd ents
-      | _, _, _ => bad
-  | some "add" => do mkSum S [← sub "a", ← sub "b"] [false, false]
-  | some "sub" => do mkSum S [← sub "a", ← sub "b"] [false, true]
-  | some "matmul" => do matmul S (← sub "a") (← sub "b")
-  | some "adjoint" => do pure (adjointOf S (← sub "a"))
-  | some "inverse" => do
-      let a ← sub "a"
-      if flipRaises S a INVERSE_BIT then .error "ZeroDivisionError" else pure (inverseOf S a)
-  | some "neg" => do scale S (← sub "a") (GR.neg GR.one)
-  | some "scale" =>
-      match (field? j "c").bind getGR? with
-      | some c => do scale S (← sub "a") c
-      | none => bad
-  | some "invEnabler" => do mkInvEnabler (← sub "a")
-  | some "sandwich" => do
-      let bun ← sub "bun"
-      let cheese ← (match field? j "cheese" with
-        | some Json.null => (pure none : Except String (Option O))
-        | none => pure none
-        | some c => do let o ← eval l S c; pure (some o))
-      mkSandwich S bun cheese ((fNat? j "dt").getD 0)
-  | _ => bad
+      | some d, some sd, some es =>
+          (es.mapM fun e => match e with
+            | Json.null => some Expr.missing
+            | e => parseExpr l e).map fun ents => Expr.block d sd ents
+      | _, _, _ => none
+  | some "add" => do some (Expr.add (← sub "a") (← sub "b"))
+  | some "sub" => do some (Expr.sub (← sub "a") (← sub "b"))
+  | some "matmul" => do some (Expr.matmul (← sub "a") (← sub "b"))
+  | some "adjoint" => do some (Expr.adjoint (← sub "a"))
+  | some "inverse" => do some (Expr.inverse (← sub "a"))
+  | some "neg" => do some (Expr.neg (← sub "a"))
+  | some "scale" => do some (Expr.scale (← sub "a") (← (field? j "c").bind getGR?))
+  | some "invEnabler" => do some (Expr.invEnabler (← sub "a"))
+  | some "sandwich" =>
+      let dt := (fNat? j "dt").getD 0
+      match field? j "cheese" with
+      | some Json.null => do some (Expr.sandwichNone (← sub "bun") dt)
+      | none => do some (Expr.sandwichNone (← sub "bun") dt)
+      | some _ => do some (Expr.sandwich (← sub "bun") (← sub "cheese") dt)
+  | _ => none
+
+/-- evaluate a JSON script: parse, then `OpAlgebra.build` (the function `tree_sound` is about) -/
+def eval (l : Lib) (S : Sem GR DV Mat) (j : Json) : Except String O :=
+  match parseExpr l j with
+  | some e => build S e
+  | none => .error "bad-script"
 
 def jGR (g : GR) : Json := Json.arr #[jRat g.re, jRat g.im]
 def jMat (m : Mat) : Json := Json.arr (m.a.map (fun r => Json.arr (r.map jGR)))
@@ -172,12 +165,13 @@ def handleC01 (j : Json) : Json :=
   match parseLib j, field? j "script" with
   | some l, some sc =>
     let S := mkSem l
+    let covered := match parseExpr l sc with | some e => treeOK S e | none => false
     match eval l S sc with
     | .error e => jErr e
     | .ok o =>
       let c := cap o
       let modes := [1, 2, 4, 8].filter (fun m => checkMode c m)
-      jObj [("cap", jNat c), ("dom", jNat (dom o)), ("tgt", jNat (tgt o)), ("struct", structOf o),
+      jObj [("cap", jNat c), ("dom", jNat (dom o)), ("tgt", jNat (tgt o)), ("struct", structOf o), ("tree_sound_covers", Json.bool covered),
             ("mats", jObj (modes.map fun m => (toString m, jMat (den S o m))))]
   | _, _ => jErr "bad-args"
 
